@@ -3,6 +3,7 @@ package validator
 import (
 	"bytes"
 	"encoding/json"
+	"fmt"
 	e "github.com/aml-org/amf-custom-validator/pkg/events"
 )
 
@@ -18,8 +19,22 @@ func ProcessInput(jsonldText string, debug bool, receiver *chan e.Event) (any, e
 	dispatchEvent(e.NewEvent(e.InputDataParsingDone), receiver)
 
 	dispatchEvent(e.NewEvent(e.InputDataNormalizationStart), receiver)
-	normalizedInput := Index(Normalize(input))
+	normalizedInput, err := normalizeAndIndex(input)
+	if err != nil {
+		return "", err
+	}
 	dispatchEvent(e.NewEvent(e.InputDataNormalizationDone), receiver)
 
 	return normalizedInput, nil
+}
+
+// normalizeAndIndex reports as errors the panics with which Normalize and Index reject data that JSON-LD processing
+// does not accept or whose source maps are malformed
+func normalizeAndIndex(input any) (normalizedInput any, err error) {
+	defer func() {
+		if r := recover(); r != nil {
+			normalizedInput, err = nil, fmt.Errorf("invalid JSON-LD input: %v", r)
+		}
+	}()
+	return Index(Normalize(input)), nil
 }
